@@ -115,7 +115,7 @@ uint32_t env_rand(void) {
 #ifdef LL2C_CBMC
   uint32_t r = nondet_u32(); __CPROVER_assume(r <= 0x7fffffffu); return r;
 #else
-  return (uint32_t)h_input("env_rand", (int)env_rand_calls - 1, 31);
+  return (uint32_t)hn_input("env_rand", (int)env_rand_calls - 1, 31);
 #endif
 }
 void env_srand(uint32_t seed) { env_srand_calls++; env_last_seed = seed; }
